@@ -33,12 +33,24 @@ pub fn build_pass_2(
     let eeprom_start_address = 0x0;
 
     for segment in pass1.segments {
+        #[cfg(feature = "verif")]
+        crate::verif::seg_start(
+            segment.t,
+            segment.address,
+            match segment.t {
+                SegmentType::Code => code.len(),
+                SegmentType::Eeprom => eeprom.len(),
+                SegmentType::Data => 0,
+            },
+        );
         // TODO: Rewrite to correct ordering of segment offsets and sizes
         match segment.t {
             SegmentType::Code => {
                 // pad to address
                 for _ in (code_start_address as i32)..segment.address as i32 - code.len() as i32 / 2
                 {
+                    #[cfg(feature = "verif")]
+                    crate::verif::step();
                     // Pushing nop command for spaces
                     code.extend(vec![0x00, 0x00]);
                 }
@@ -47,6 +59,8 @@ pub fn build_pass_2(
                 // pad to address
                 for _ in (eeprom_start_address as i32)..segment.address as i32 - eeprom.len() as i32
                 {
+                    #[cfg(feature = "verif")]
+                    crate::verif::step();
                     // Pushing empty data for spaces
                     eeprom.extend(vec![0x00]);
                 }
@@ -85,6 +99,10 @@ fn pass_2_internal(segment: &Segment, common_context: &CommonContext) -> Result<
     let mut cur_address = segment.address;
 
     for (line, item) in segment.items.iter() {
+        #[cfg(feature = "verif")]
+        crate::verif::step();
+        #[cfg(feature = "verif")]
+        let (verif_addr, verif_len) = (cur_address, code_fragment.len());
         common_context.set_special("pc".to_string(), Expr::Const(cur_address as i64));
         match item {
             Item::Instruction(op, op_args) => {
@@ -120,6 +138,8 @@ fn pass_2_internal(segment: &Segment, common_context: &CommonContext) -> Result<
             Item::ReserveData(size) => {
                 cur_address += *size as u32;
                 for _ in 0..*size {
+                    #[cfg(feature = "verif")]
+                    crate::verif::step();
                     code_fragment.push(0x0);
                 }
             }
@@ -156,6 +176,14 @@ fn pass_2_internal(segment: &Segment, common_context: &CommonContext) -> Result<
             }
             _ => {}
         }
+        #[cfg(feature = "verif")]
+        crate::verif::emitted(
+            line,
+            segment.t,
+            verif_addr,
+            cur_address,
+            code_fragment.len() - verif_len,
+        );
     }
 
     Ok(code_fragment)
